@@ -169,12 +169,53 @@ Definition call_root (p : parser) (s : option sym) : sym := match s with Some s'
 Lemma build_start : forall ug terminals smart start p, build ug terminals smart start = Ok p -> p_start p = start.
 Proof. intros ug terminals smart start p H. destruct (build_inv _ _ _ _ _ H) as [g [sfxs [_ ->]]]. reflexivity. Qed.
 
+(* the start symbol of a call that passes the assertions of parse() is no helper symbol *)
+Lemma start_ok_no_dunder : forall p s, start_ok p s = true -> has_dunder s = false.
+Proof.
+  intros p s H. unfold start_ok in H. destruct (mem s (gkeys (p_grammar p))); [|discriminate].
+  now apply negb_true_iff in H.
+Qed.
+
+Lemma call_root_no_helper : forall ug terminals smart start p s,
+  build ug terminals smart start = Ok p ->
+  match s with Some s' => start_ok p s' = true | None => True end ->
+  mem (call_root p s) (p_sfxs p) = false.
+Proof.
+  intros ug terminals smart start p s Hb Hs. eapply no_dunder_no_helper; [eassumption|].
+  destruct s as [s'|]; cbn [call_root].
+  - eapply start_ok_no_dunder; eassumption.
+  - rewrite (build_start _ _ _ _ _ Hb). now destruct (build_inv_names _ _ _ _ _ Hb).
+Qed.
+
+(* a per-call start symbol with '__' is rejected (AssertionError), whatever the parser and the tokens *)
+Lemma dunder_start_rejected : forall p k toks s, has_dunder s = true -> parse_at p k toks (Some s) = Err AssertErr.
+Proof.
+  intros p k toks s H. unfold parse_at, start_ok. rewrite H. now destruct (mem s (gkeys (p_grammar p))).
+Qed.
+
+(* parse(tokens, start_symbol_name=s) for a parser made by the constructor: no hypothesis on s *)
+Theorem parse_at_sound_l : forall ug terminals smart start p k body e s t,
+  build ug terminals smart start = Ok p ->
+  (forall b, In b body -> tname b <> END_TOKEN) ->
+  parse_at p k (body ++ [e]) s = Ok t ->
+  tree_name t = call_root p s /\ valid_tree ug t /\ no_helper (p_sfxs p) t /\
+  kinds_ok (fun x => mem x (p_terminals p)) t /\ leaves t = map tok_pair body.
+Proof.
+  intros ug terminals smart start p k body e s t Hb Hbody Hp.
+  assert (Hs : match s with Some s' => start_ok p s' = true | None => True end).
+  { destruct s as [s'|]; [|exact I]. unfold parse_at in Hp. destruct (start_ok p s'); [reflexivity|discriminate]. }
+  pose proof (call_root_no_helper _ _ _ _ _ _ Hb Hs) as Hroot.
+  eapply parse_sound_at_l; try eassumption.
+  unfold parse_at in Hp. destruct s as [s'|]; cbn [call_root].
+  - rewrite Hs in Hp. exact Hp.
+  - exact Hp.
+Qed.
+
 (* ---------------- parse(text) end to end ---------------- *)
 Theorem parse_text_sound_l : forall cfg skip ug smart start p k text s t,
   lexicon_ok (c_lex cfg) ->
   mem END_TOKEN (cfg_terminals cfg) = false ->
   build_cfg cfg skip ug smart start = Ok p ->
-  mem (call_root p s) (p_sfxs p) = false ->
   parse_text cfg (skip_set (cfg_terminals cfg) skip) p k text s = Ok t ->
   exists all pe,
     cfg_tokenize cfg (tok_lines (IStr text)) = LOk (all ++ [mkTok END_TOKEN [] pe pe]) /\
@@ -186,13 +227,13 @@ Theorem parse_text_sound_l : forall cfg skip ug smart start p k text s t,
     kinds_ok (fun x => mem x (p_terminals p)) t /\
     leaves t = map tok_pair (filter (fun tk => negb (mem (tname tk) (skip_set (cfg_terminals cfg) skip))) all).
 Proof.
-  intros cfg skip ug smart start p k text s t Hlex Hend Hb Hroot Hp.
+  intros cfg skip ug smart start p k text s t Hlex Hend Hb Hp.
   destruct (build_cfg_inv _ _ _ _ _ _ Hb) as [Hb' Hsub].
   set (sk := skip_set (cfg_terminals cfg) skip) in *.
   (* the tokens *)
   assert (Hp' : exists toks, text_tokens cfg sk text = Ok toks /\ parse_at p k toks s = Ok t).
   { unfold parse_text in Hp. destruct s as [s'|].
-    - destruct (mem s' (gkeys (p_grammar p))); [|discriminate].
+    - destruct (start_ok p s'); [|discriminate].
       destruct (text_tokens cfg sk text) as [toks|] eqn:E; [|discriminate]. cbn [bind] in Hp. eauto.
     - destruct (text_tokens cfg sk text) as [toks|] eqn:E; [|discriminate]. cbn [bind] in Hp. eauto. }
   destruct Hp' as [toks [Ht Hpa]]. unfold text_tokens in Ht.
@@ -206,10 +247,5 @@ Proof.
   assert (Hbody : forall b, In b (drop_skipped sk all) -> tname b <> END_TOKEN).
   { intros b Hin. unfold drop_skipped in Hin. apply filter_In in Hin as [Hin _].
     rewrite Forall_forall in Hnames. apply Hnames in Hin. intros Heq. rewrite Heq in Hin. contradiction. }
-  assert (Hparse : parse (fun x => mem x (p_terminals p)) (table_get (p_tables p)) (p_sfxs p)
-                     (drop_skipped sk all ++ [mkTok END_TOKEN [] pe pe]) k (call_root p s) = Ok t).
-  { unfold parse_at in Hpa. destruct s as [s'|]; cbn [call_root].
-    - destruct (mem s' (gkeys (p_grammar p))); [exact Hpa|discriminate].
-    - exact Hpa. }
-  exact (parse_sound_at_l _ _ _ _ _ _ _ _ _ _ Hb' Hroot Hbody Hparse).
+  exact (parse_at_sound_l _ _ _ _ _ _ _ _ _ _ Hb' Hbody Hpa).
 Qed.
